@@ -179,6 +179,24 @@ def s2(ctx, rep):
     brk = [n for n in cfg.nodes if n.kind == "stmt" and isinstance(n.ast, ast.Break)]
     ok = bool(thn) and bool(accn) and any(("lt", thn[0], accn[0]) in ctx.facts(f).at(n.id) for n in brk)
     rep.put(ok, "S2", "guarded_by", "CostPromotionRungSystem: the scan ends once the running cost exceeds the threshold", f, None, "")
+    # ... and an entry is taken only while the running cost is within the threshold, if it is promotable, and if the rung has more
+    # than one entry (the same minimum the metric-based rule needs for a cutoff)
+    from .common import dom_guard
+    takes = [n for n in cfg.nodes if n.kind == "stmt" and isinstance(n.ast, ast.Assign) and isinstance(n.ast.value, ast.Tuple)
+             and any("trial_id" in U(e) for e in n.ast.value.elts)]
+    ok = len(takes) == 1 and bool(thn) and bool(accn)
+    miss = []
+    if ok:
+        at = set(dom_guard(ctx, f, takes[0].id)) | set(ctx.facts(f).at(takes[0].id))
+        if not (("le", accn[0], thn[0]) in at or ("lt", thn[0], accn[0], False) in at):
+            miss.append("running cost <= threshold")
+        if not any(a[0] == "truth" and "_is_promotable_trial" in a[1] and a[2] is True for a in at):
+            miss.append("_is_promotable_trial(entry)")
+        if not any(a[0] == "lt" and a[1] == "1" and a[2].startswith("len(") for a in at) and not any(a[0] == "le" and a[1] == "2" and a[2].startswith("len(") for a in at):
+            miss.append("len(rung) > 1")
+    rep.put(ok and not miss, "S2", "guarded_by", "CostPromotionRungSystem: an entry is taken | cost within the threshold, promotable, more than one entry", f,
+            takes[0].ast if takes else None, "", f"not taken exactly under `{' and '.join(miss)}`: a trial whose cumulative cost share exceeds the promotion "
+            "quantile (or an already promoted one, or the only entry of a rung) is resumed")
 
 
 def s3(ctx, rep):
